@@ -20,6 +20,16 @@ fn main() {
     }
     let args = common::parse_args();
     common::quiet_panics();
+    // Wall-clock watchdog: a hung engine is a machinery failure (exit 2), never a verdict
+    let limit: u64 = std::env::var("AQV_WATCHDOG_S").ok().and_then(|s| s.parse().ok()).unwrap_or(match args.tier {
+        common::Tier::Quick => 1500,
+        common::Tier::Thorough => 6 * 3600,
+    });
+    let id = args.id.clone();
+    std::thread::spawn(move || {
+        std::thread::sleep(std::time::Duration::from_secs(limit));
+        common::machinery_failure(&format!("{}: watchdog: no result after {} s", id, limit));
+    });
     let r = std::panic::catch_unwind(|| dispatch(&args));
     if let Err(e) = r {
         common::machinery_failure(&format!("harness panicked: {}", common::panic_message(&e)));
